@@ -15,9 +15,35 @@ structure Guards (o : Opts) : Prop where
 /-- the initial concrete session of an arena created with options `o` -/
 def CSess.start (s : St) : CSess := { st := s, held := [], detached := [] }
 
-/-- `x` is reached from a fresh arena with options `o` by some history of API calls -/
+/-- `x` is reached from a fresh arena with options `o` by some history of API calls (allocations, releases,
+    detaches, the mutators, `clear`, `truncate` — the latter only for the `unsync` flavour and up to the capacity
+    the traversal fuel of the model covers, see `COp.fits` — and client writes) -/
 def Reachable (o : Opts) (fuel : Nat) (x : CSess) : Prop :=
-  ∃ s ops, o.init = some s ∧ (∀ op ∈ ops, COp.ok op) ∧ crun o.cfg fuel (CSess.start s) ops = .ok x
+  ∃ s ops, o.init = some s ∧ (∀ op ∈ ops, COp.ok op) ∧ (∀ op ∈ ops, COp.fits o.cfg fuel op) ∧
+    crun o.cfg fuel (CSess.start s) ops = .ok x
+
+theorem Opts.cfg_sync (o : Opts) : o.cfg.sync = o.sync := rfl
+
+/-- the sync flavour has no `truncate` -/
+theorem COp.fits_sync {c : Cfg} {fuel : Nat} {op : COp} (hs : c.sync = true) (h : op.fits c fuel) :
+    op.isTruncate = false := by
+  cases op with
+  | fill i b => rfl
+  | op o =>
+    cases o
+    case truncate n =>
+      simp only [COp.fits, hs] at h
+      exact absurd h.1 (by simp)
+    all_goals rfl
+
+/-- an operation other than `truncate` fits every flavour and every fuel -/
+theorem COp.fits_of_not_truncate {c : Cfg} {fuel : Nat} {op : COp} (h : op.isTruncate = false) : op.fits c fuel := by
+  cases op with
+  | fill i b => trivial
+  | op o =>
+    cases o
+    case truncate n => simp [COp.isTruncate] at h
+    all_goals trivial
 
 theorem Opts.cfg_ro (o : Opts) : o.cfg.ro = false := rfl
 
@@ -41,35 +67,41 @@ theorem start_rel (o : Opts) (g : Guards o) (s : St) (hs : o.init = some s) :
     Rel o.cfg (CSess.start s) (HState.init o.cap o.dataOffset o.minSeg) [] ∧ s.cap = o.cap :=
   ⟨sim_init o s hs g.cap g.minSeg g.retries, (init_cinv o s hs g.cap g.minSeg g.retries).2.2.1⟩
 
-/-- everything the simulation says about a whole history from a fresh arena -/
+/-- everything the simulation says about a whole history from a fresh arena; the capacity stays covered by the
+    fuel, and is the configured one unless the history truncates -/
 theorem run_rel (o : Opts) (g : Guards o) (fuel : Nat) (hfuel : o.cap + 2 ≤ fuel) (s : St)
-    (hs : o.init = some s) (ops : List COp) (hops : ∀ op ∈ ops, COp.ok op) :
-    ∃ x h free, crun o.cfg fuel (CSess.start s) ops = .ok x ∧ Rel o.cfg x h free ∧ x.st.cap = o.cap ∧
+    (hs : o.init = some s) (ops : List COp) (hops : ∀ op ∈ ops, COp.ok op)
+    (hfits : ∀ op ∈ ops, COp.fits o.cfg fuel op) :
+    ∃ x h free, crun o.cfg fuel (CSess.start s) ops = .ok x ∧ Rel o.cfg x h free ∧
+      (x.st.cap + 2 ≤ fuel ∧ ((∀ op ∈ ops, op.isTruncate = false) → x.st.cap = o.cap)) ∧
       PrefixIntact o.cfg s x.st := by
   obtain ⟨hr, hc⟩ := start_rel o g s hs
-  obtain ⟨x, free, e, hrel, hsz, hpre⟩ := sim_run o.cfg (CSess.start s) _ [] ops fuel hr o.cfg_ro hops
+  obtain ⟨x, free, e, hrel, ⟨hf, hsz⟩, hpre⟩ := sim_run o.cfg (CSess.start s) _ [] ops fuel hr o.cfg_ro hops hfits
     (by show s.cap + 2 ≤ fuel; omega)
-  refine ⟨x, _, free, e, hrel, ?_, hpre⟩
+  refine ⟨x, _, free, e, hrel, ⟨hf, fun hnt => ?_⟩, hpre⟩
   show x.st.mem.size = o.cap
-  rw [hsz]; exact hc
+  rw [hsz hnt]; exact hc
 
+-- CHANGED (histories now contain `truncate`): the capacity of a reachable state is no longer `o.cap` in general;
+-- it is covered by the fuel, and it is `o.cap` for the sync flavour (whose histories contain no `truncate`).
 /-- every reachable state satisfies the simulation relation with the abstract history state -/
 theorem reachable_rel (o : Opts) (g : Guards o) (fuel : Nat) (hfuel : o.cap + 2 ≤ fuel) (x : CSess)
     (hr : Reachable o fuel x) :
-    ∃ h free, Rel o.cfg x h free ∧ x.st.cap = o.cap := by
-  obtain ⟨s, ops, hs, hops, hrun⟩ := hr
-  obtain ⟨x', h, free, e, hrel, hc, _⟩ := run_rel o g fuel hfuel s hs ops hops
+    ∃ h free, Rel o.cfg x h free ∧ x.st.cap + 2 ≤ fuel ∧ (o.sync = true → x.st.cap = o.cap) := by
+  obtain ⟨s, ops, hs, hops, hfits, hrun⟩ := hr
+  obtain ⟨x', h, free, e, hrel, ⟨hf, hc⟩, _⟩ := run_rel o g fuel hfuel s hs ops hops hfits
   rw [hrun] at e
   cases e
-  exact ⟨h, free, hrel, hc⟩
+  exact ⟨h, free, hrel, hf, fun hsync => hc (fun op hop => COp.fits_sync hsync (hfits op hop))⟩
 
+-- CHANGED (histories now contain `truncate`): the capacity is the configured one for the sync flavour only.
 /-- every reachable state satisfies the concrete invariant (for its abstract free list and the extents of its
-    handles), the fuel suffices for every traversal, and the capacity is the configured one -/
+    handles), the fuel suffices for every traversal, and the capacity is the configured one unless truncated -/
 theorem reachable_cinv (o : Opts) (g : Guards o) (fuel : Nat) (hfuel : o.cap + 2 ≤ fuel) (x : CSess)
     (hr : Reachable o fuel x) :
-    ∃ free lives, CInv o.cfg x.st free lives ∧ free.length + 2 ≤ fuel ∧ x.st.cap = o.cap := by
-  obtain ⟨h, free, hrel, hc⟩ := reachable_rel o g fuel hfuel x hr
-  exact ⟨free, h.lives, hrel.cinv, sim_fuel hrel (by omega), hc⟩
+    ∃ free lives, CInv o.cfg x.st free lives ∧ free.length + 2 ≤ fuel ∧ (o.sync = true → x.st.cap = o.cap) := by
+  obtain ⟨h, free, hrel, hf, hc⟩ := reachable_rel o g fuel hfuel x hr
+  exact ⟨free, h.lives, hrel.cinv, sim_fuel hrel hf, hc⟩
 
 /-- reading a refinement statement with the concrete result at hand -/
 theorem AllocRefines.out {c : Cfg} {s : St} {free : List Seg} {lives : List Ext} {r : AOut × A}
@@ -88,23 +120,28 @@ theorem AllocRefines.out {c : Cfg} {s : St} {free : List Seg} {lives : List Ext}
 /-- every history runs to completion: no trap (no unchecked arithmetic overflow, no out-of-bounds access),
     no divergence -/
 theorem histories_complete (o : Opts) (g : Guards o) (fuel : Nat) (hfuel : o.cap + 2 ≤ fuel) (s : St)
-    (hs : o.init = some s) (ops : List COp) (hops : ∀ op ∈ ops, COp.ok op) :
+    (hs : o.init = some s) (ops : List COp) (hops : ∀ op ∈ ops, COp.ok op)
+    (hfits : ∀ op ∈ ops, COp.fits o.cfg fuel op) :
     ∃ x, crun o.cfg fuel (CSess.start s) ops = .ok x := by
-  obtain ⟨x, _, _, e, _⟩ := run_rel o g fuel hfuel s hs ops hops
+  obtain ⟨x, _, _, e, _⟩ := run_rel o g fuel hfuel s hs ops hops hfits
   exact ⟨x, e⟩
 
 /-- one more call from a reachable state also completes, and reaches a reachable state -/
 theorem reachable_step (o : Opts) (g : Guards o) (fuel : Nat) (hfuel : o.cap + 2 ≤ fuel) (x : CSess)
-    (hr : Reachable o fuel x) (op : COp) (hop : op.ok) :
+    (hr : Reachable o fuel x) (op : COp) (hop : op.ok) (hfit : op.fits o.cfg fuel) :
     ∃ x', cstep o.cfg fuel x op = .ok x' ∧ Reachable o fuel x' := by
-  obtain ⟨h, free, hrel, hc⟩ := reachable_rel o g fuel hfuel x hr
-  obtain ⟨x', _, e, _⟩ := sim_step o.cfg x h free op fuel hrel o.cfg_ro hop (by omega)
-  obtain ⟨s, ops, hs, hops, hrun⟩ := hr
-  refine ⟨x', e, s, ops ++ [op], hs, ?_, ?_⟩
+  obtain ⟨h, free, hrel, hc, _⟩ := reachable_rel o g fuel hfuel x hr
+  obtain ⟨x', _, e, _⟩ := sim_step o.cfg x h free op fuel hrel o.cfg_ro hop hc
+  obtain ⟨s, ops, hs, hops, hfits, hrun⟩ := hr
+  refine ⟨x', e, s, ops ++ [op], hs, ?_, ?_, ?_⟩
   · intro p hp
     rcases List.mem_append.1 hp with hp | hp
     · exact hops p hp
     · simp only [List.mem_singleton] at hp; subst hp; exact hop
+  · intro p hp
+    rcases List.mem_append.1 hp with hp | hp
+    · exact hfits p hp
+    · simp only [List.mem_singleton] at hp; subst hp; exact hfit
   · rw [crun_append, hrun]; exact e
 
 end Rarena
